@@ -98,10 +98,13 @@ def main():
     elif cmd == 'eval':
         r = evaluate(sys.argv[2])
         print(json.dumps(r, indent=1))
-    elif cmd == 'evalall':
+    elif cmd in ('evalall', 'evalsome'):
+        # evalsome <dir names>: evaluate only those seeds and merge them into RESULTS.json
         base = os.path.join(HERE, 'seeded')
-        summary = {}
+        summary = json.load(open(os.path.join(base, 'RESULTS.json'))) if cmd == 'evalsome' else {}
         dirs = [d for d in sorted(os.listdir(base)) if os.path.exists(os.path.join(base, d, 'patch.diff'))]
+        if cmd == 'evalsome':
+            dirs = [d for d in dirs if d in sys.argv[2:]]
         from multiprocessing.pool import ThreadPool
         with ThreadPool(6) as pool:
             results = pool.map(lambda d: evaluate(os.path.join(base, d, 'patch.diff')), dirs)
@@ -112,7 +115,7 @@ def main():
             summary[d] = {'property': target, 'caught_by_target': hit, 'fired': r.get('fired', {}), 'error': r.get('error')}
             print(d, target, 'CAUGHT' if hit else ('caught-by-other ' + ','.join(r.get('fired', {})) if r.get('fired') else 'MISSED'),
                   {k: v[:2] for k, v in r.get('fired', {}).items()})
-        json.dump(summary, open(os.path.join(base, 'RESULTS.json'), 'w'), indent=1)
+        json.dump(dict(sorted(summary.items())), open(os.path.join(base, 'RESULTS.json'), 'w'), indent=1)
 
 
 def evalrefactors():
